@@ -11,35 +11,36 @@ namespace Simpleline
 
 /-- The result of a render (lines, cursor, and the state of every sub-object — or the error) is the
 same whatever state the objects of the tree were in: it is a function of the contents and the width. -/
-theorem C16_render_fresh (cc : CharClass) (t : Wd) (w : Int) : t.render cc w = t.reset.render cc w := by
-  sorry
+theorem C16_render_fresh (cc : CharClass) (t : Wd) (w : Int) : t.render cc w = t.reset.render cc w :=
+  render_reset cc t w
 
 /-- rendering changes state only: contents are untouched -/
 theorem C16_render_keeps_contents (cc : CharClass) (t t' : Wd) (w : Int) (h : t.render cc w = .ok t') :
-    t'.reset = t.reset := by
-  sorry
+    t'.reset = t.reset :=
+  render_keeps cc t t' w h
 
 /-- two trees with the same contents render alike, whatever their histories -/
 theorem C16_same_contents (cc : CharClass) (t u : Wd) (w : Int) (h : t.reset = u.reset) :
-    t.render cc w = u.render cc w := by
-  sorry
+    t.render cc w = u.render cc w :=
+  render_congr_reset cc w h
 
 /-- rendering twice gives the same lines -/
 theorem C16_render_twice (cc : CharClass) (t t1 : Wd) (w : Int) (h1 : t.render cc w = .ok t1) :
     t1.render cc w = .ok t1 := by
-  sorry
+  rw [render_congr_reset cc w (render_keeps cc t t1 w h1), h1]
 
 /-- rendering at another width (successfully or not) and then again at the first width gives the
 same result as rendering at the first width directly -/
 theorem C16_other_width_between (cc : CharClass) (t t1 : Wd) (w w' : Int) (h1 : t.render cc w' = .ok t1) :
-    t1.render cc w = t.render cc w := by
-  sorry
+    t1.render cc w = t.render cc w :=
+  render_congr_reset cc w (render_keeps cc t t1 w' h1)
 
 /-- adding an item after a render gives the same result as adding it to the container that was
 never rendered -/
 theorem C16_add_after_render (cc : CharClass) (t t1 x : Wd) (w w' : Int) (h1 : t.render cc w' = .ok t1) :
     (t1.add x).render cc w = (t.add x).render cc w := by
-  sorry
+  apply render_congr_reset
+  rw [Wd.reset_add, Wd.reset_add, render_keeps cc t t1 w' h1]
 
 /-! Non-vacuity: a numbered list rendered, extended, rendered again at another width. -/
 example :
